@@ -135,6 +135,42 @@ def run_script(drv, cmds, metas, spool_parent, keep_spool=False, mode='root', pr
     return rec, files, spool
 
 
+def run_two_lives(drv, cmds, metas, spool_parent):
+    """the leading add requests of a script go to a first daemon process, which saves its queues and shuts down; the rest of the
+    script is run by a second process started on the same spool (it loads the queue files).  One run record, the events of both lives
+    one after the other (the clock of the first life does not move)."""
+    split = 0
+    while split < len(cmds) and cmds[split][:2] in ('A\t', 'AC'): split += 1
+    m1 = {i: v for i, v in metas.items() if i < split}; m2 = {i - split + 1: v for i, v in metas.items() if i >= split}
+    rec1, files, spool1 = run_script(drv, cmds[:split] + ['K', 'S'], m1, spool_parent, keep_spool=True)
+    def pre(sp):
+        for fn in os.listdir(spool1):
+            if fn.startswith('echsq_'): shutil.copy(os.path.join(spool1, fn), os.path.join(sp, fn))
+    rec2, _, _ = run_script(drv, ['L'] + cmds[split:], m2, spool_parent, pre=pre)          # L: the daemon reads its spool, as at every start
+    shutil.rmtree(spool1, ignore_errors=True)
+    return {'e': 'Run', 'script': cmds[:split] + ['K', 'S', '# second life', 'L'] + cmds[split:], 'ev': rec1['ev'] + rec2['ev'], 'lives': 2}
+
+
+def limit_mix_script(rnd, peers=(1000,)):
+    """tasks with a limit and tasks without one, all with several occurrences a second or two apart, jobs that take long: the
+    unlimited ones overlap themselves, the limited ones hit their limit (for run_two_lives: the adds come first)"""
+    cmds, metas = [], {}
+    uids = ['m%d' % i for i in range(rnd.choice([2, 3, 4]))]
+    lim = rnd.sample(uids, rnd.randint(1, len(uids) - 1))
+    for u in rnd.sample(uids, len(uids)):
+        t0 = rnd.randint(1, 4)
+        it = {'kind': 'add', 'uid': u, 'occ': sorted(set(t0 + rnd.randint(0, 6) for _ in range(rnd.randint(2, 5)))), 'maxsim': rnd.choice([1, 1, 2, 3]) if u in lim else 0, 'peer': rnd.choice(peers)}
+        metas[len(cmds)] = [it]; cmds.append(areq(rnd, it['peer'], request([it])))
+    for _ in range(14):
+        cmds += ['T\t1', 'R']
+        if rnd.random() < 0.5: cmds.append('D\t%d' % rnd.randint(0, 5))
+        if rnd.random() < 0.15: cmds += ['XI\t%d' % rnd.randint(0, 5), 'DA']
+    for _ in range(3):
+        cmds += ['T\t20', 'R', 'DA'] + ['XI\t0', 'DA'] * 8
+    cmds.append('Q')
+    return cmds, metas
+
+
 def run_many(drv, scripts, wd, par=vlib.NCPU):
     """scripts: list of (cmds, metas).  Returns run records in order."""
     sp = f'{wd}/spool'
